@@ -83,6 +83,14 @@ class WireManagerBase(abc.ABC):
                         f"and {coincident} ({coincident.grading.count})"
                     )
 
+                # ...and the same cell sizes (in reversed order if the wires run in opposite directions)
+                expected = coincident.grading if coincident.is_aligned(wire) else coincident.grading.inverted
+                if wire.grading != expected:
+                    raise InconsistentGradingsError(
+                        f"Inconsistent gradings on coincident wires {wire} ({wire.grading}) "
+                        f"and {coincident} ({coincident.grading})"
+                    )
+
 
 class WireChopManager(WireManagerBase):
     """Responsible for conversion of user-specified Chops
